@@ -206,6 +206,7 @@ struct Ref
   bool atten = false, nonunit = false;
   std::string sig;          // class signature for violation keys
   std::vector<std::string> kinds;
+  std::shared_ptr<Ref> first, second; // chains: the references of the two members (null for a leaf)
 };
 struct BuiltNorm
 {
@@ -490,6 +491,8 @@ inline BuiltNorm build(World& w, const std::string& s, size_t& pos)
       if (a.skipped || c.skipped) { o.skipped = true; o.why = a.skipped ? a.why : c.why; return o; }
       o.n.reset(new ChainedBinNormalisation(a.n, c.n));
       o.r = a.r;
+      o.r.first = std::make_shared<Ref>(a.r);
+      o.r.second = std::make_shared<Ref>(c.r);
       for (size_t i = 0; i < w.nb; ++i)
         {
           o.r.eff[i] = a.r.eff[i] * c.r.eff[i];
